@@ -57,7 +57,7 @@ def addCov (cov : List String) (tags : List String) : List String :=
   tags.foldl (fun c t => if c.contains t then c else c ++ [t]) cov
 
 /-- One C17 case on one model variant: `lines` are (lineNo, text) of the case body. -/
-def runCase17V (lines : Array (Nat × String)) (fixReap fixAck fixRetx fixQuiet fixFw2 : Bool) : CaseResult := Id.run do
+def runCase17V (lines : Array (Nat × String)) (fixReap fixAck fixRetx fixQuiet fixFw2 fixFam : Bool) : CaseResult := Id.run do
   let mut res : CaseResult := {}
   let mut w : R17.World := {}
   let mut g : O17.G := {}
@@ -69,7 +69,7 @@ def runCase17V (lines : Array (Nat × String)) (fixReap fixAck fixRetx fixQuiet 
   for (ln, l) in lines do
     if l.startsWith "CFG" then
       let hs := parseHosts l
-      let fab := hs.foldl (fun f a => f.addHost a fixReap fixAck fixRetx fixQuiet fixFw2) {}
+      let fab := hs.foldl (fun f a => f.addHost a fixReap fixAck fixRetx fixQuiet fixFw2 fixFam) {}
       -- `eph=<lo>-<hi>`: ephemeral range shrunk through the verification hook
       let eph := (l.splitOn " ").findSome? fun t =>
         match t.splitOn "=" with
@@ -138,28 +138,29 @@ def runCase17V (lines : Array (Nat × String)) (fixReap fixAck fixRetx fixQuiet 
     (F-C17-1 orphan reaping, ACK of unacceptable SYN/FIN, retransmit counters reset at the end of
     the handshake, quiet abort in LastAck/Closing); first match wins, the verdict of the faithful run is reported if none fits. -/
 def runCase17 (lines : Array (Nat × String)) (only : Option String := none) : CaseResult × String := Id.run do
-  -- debugging aid: TV_NETTABLE_VARIANT=abcde (five 0/1 flags reap,ack,retx,quiet,fw2) forces one variant
+  -- debugging aid: TV_NETTABLE_VARIANT=abcde (six 0/1 flags reap,ack,retx,quiet,fw2,closefamily) forces one variant
   if let some v := only then
     let b := fun (i : Nat) => (v.toList.getD i '0') == '1'
-    return (runCase17V lines (b 0) (b 1) (b 2) (b 3) (b 4), "forced:" ++ v)
+    return (runCase17V lines (b 0) (b 1) (b 2) (b 3) (b 4) (b 5), "forced:" ++ v)
   -- the committed tree first (all repairs), then the code as found, then the intermediate trees
-  let rc := runCase17V lines true true true true true
+  let rc := runCase17V lines true true true true true true
   if rc.kOk then return (rc, "fixed")
   -- the variants differ only in TCP behaviour: nothing to retry without TCP traffic
   let hasTcp := lines.any fun (_, l) =>
     l.startsWith "OP " && ((l.splitOn " ").getD 2 "" |> fun o => o == "tconnect" || o == "tconnectcancel" ||
       o == "injectsyn" || o == "injectrst")
   if !hasTcp then return (rc, "-")
-  let variants : List (Bool × Bool × Bool × Bool × Bool × String) :=
-    [(false, false, false, false, false, "faithful"),
-     (true, true, true, true, false, "fixed:pre-fw2timeout"), (true, true, true, false, false, "fixed:reap+ack+retx"),
-     (true, false, false, false, false, "fixed:reap"), (false, true, false, false, false, "fixed:ack"),
-     (false, false, true, false, false, "fixed:retx"), (false, false, false, true, false, "fixed:quiet"),
-     (false, false, false, false, true, "fixed:fw2timeout"),
-     (true, true, false, false, false, "fixed:reap+ack"), (true, false, true, false, false, "fixed:reap+retx"),
-     (false, true, true, false, false, "fixed:ack+retx")]
-  for (a, b, c, d, e, name) in variants do
-    let r := runCase17V lines a b c d e
+  let variants : List (Bool × Bool × Bool × Bool × Bool × Bool × String) :=
+    [(false, false, false, false, false, false, "faithful"),
+     (true, true, true, true, true, false, "fixed:pre-closefamily"),
+     (true, true, true, true, false, false, "fixed:pre-fw2timeout"), (true, true, true, false, false, false, "fixed:reap+ack+retx"),
+     (true, false, false, false, false, false, "fixed:reap"), (false, true, false, false, false, false, "fixed:ack"),
+     (false, false, true, false, false, false, "fixed:retx"), (false, false, false, true, false, false, "fixed:quiet"),
+     (false, false, false, false, true, false, "fixed:fw2timeout"), (false, false, false, false, false, true, "fixed:closefamily"),
+     (true, true, false, false, false, false, "fixed:reap+ack"), (true, false, true, false, false, false, "fixed:reap+retx"),
+     (false, true, true, false, false, false, "fixed:ack+retx")]
+  for (a, b, c, d, e, f, name) in variants do
+    let r := runCase17V lines a b c d e f
     if r.kOk then return (r, name)
   return (rc, "-")
 
